@@ -19,11 +19,11 @@ def member_params(i):
                 scenes=['ma', 'mb', 'hip', 'blend', 'hou', 'psd', 'nk', 'maya'], caches=['abc', 'json', 'fur', 'grm', 'vdb', 'cache'], movies=['mp4', 'mov', 'avi', 'movie'],
                 alias={'cache': ['abc', 'json', 'fur', 'grm', 'vdb'], 'hou': ['hip', 'hipnc'], 'maya': ['ma', 'mb'], 'movie': ['mp4', 'mov', 'avi']},
                 episode=None, drop_state_in_assets=False, third_basetype=False, third_path_config=False, outdir='OUTPUT', exportdir='EXPORT',
-                pin_intermediate=False, two_branches=False, no_default_leaf=False)
+                pin_intermediate=False, two_branches=False, no_default_leaf=False, third_mapping=False)
     if i == 0:
         return demo
     p = dict(demo)
-    kinds = ['rename_keys', 'rename_types', 'separators', 'vocab', 'insert_level', 'third_basetype', 'third_path', 'leaf', 'pin_intermediate', 'two_branches', 'no_default_leaf']
+    kinds = ['rename_keys', 'rename_types', 'separators', 'vocab', 'insert_level', 'third_basetype', 'third_path', 'leaf', 'pin_intermediate', 'two_branches', 'no_default_leaf', 'third_mapping']
     chosen = set(rng.sample(kinds, rng.randint(2, 5)))
     if i == 1:
         chosen = {'rename_keys', 'leaf', 'rename_types'}
@@ -32,7 +32,7 @@ def member_params(i):
     if i == 3:
         chosen = {'third_basetype', 'vocab', 'rename_types'}
     if i == 4:
-        chosen = {'pin_intermediate', 'two_branches', 'no_default_leaf', 'leaf', 'rename_keys'}
+        chosen = {'pin_intermediate', 'two_branches', 'no_default_leaf', 'leaf', 'rename_keys', 'third_mapping'}
     if 'rename_keys' in chosen:
         p.update(project='proj', type='kind', assettype='category', asset='name', task='step', version='rev', state='status', sequence='seq', shot='plan', node='part')
     if 'leaf' in chosen:
@@ -56,7 +56,9 @@ def member_params(i):
         p['third_basetype'] = True
     if 'third_path' in chosen:
         p['third_path_config'] = True
-    for k in ('pin_intermediate', 'two_branches', 'no_default_leaf'):
+    if 'third_mapping' in chosen:
+        p['third_path_config'] = True
+    for k in ('pin_intermediate', 'two_branches', 'no_default_leaf', 'third_mapping'):
         if k in chosen:
             p[k] = True
     p['chosen'] = sorted(chosen)
@@ -180,7 +182,7 @@ def build(p):
     return dict(sid_templates=sid_templates, to_extrapolate=to_extrapolate, key_patterns=key_patterns, key_types=key_types, leaf_keys=leaf_keys, narrowing=narrowing,
                 path_templates=path_templates, path_mapping=path_mapping, fs_kp=fs_kp, alias=K['alias'], projects=[s for s, _ in K['projects']],
                 default_state=st_path[0], state_key=K['state'], asset_types=K['asset_types'], type_codes=[K['code_a'], K['code_s']] + (['l'] if K['third_basetype'] else []),
-                keys=K, third_path=K['third_path_config'])
+                keys=K, third_path=K['third_path_config'], third_mapping=K['third_mapping'])
 
 def py(o):
     return repr(o)
@@ -217,15 +219,22 @@ def write_package(i, out):
         f.write('key_patterns = key_patterns.copy()\n')
         for sel, repl in b['fs_kp'].items():
             f.write('key_patterns[%r] = dict(key_patterns[%r])\nkey_patterns[%r].update(%s)\n' % (sel, sel, sel, odict(repl)))
-    def other_fs(name, folder):
+    def other_fs(name, folder, remap=False):
         with open(os.path.join(out, name + '.py'), 'w') as f:
             f.write("from spil_fs_conf import *  # type: ignore\nfrom pathlib import Path\n")
+            if remap:
+                # the same templates with other one-to-one value mappings (and the patterns that go with them)
+                f.write("import copy\npath_mapping = copy.deepcopy(path_mapping)\nkey_patterns = copy.deepcopy(key_patterns)\npath_templates = dict(path_templates)\npath_defaults = dict(path_defaults)\n")
+                f.write("_ren = {}\nfor _k, _m in list(path_mapping.items()):\n    path_mapping[_k] = {('X' + _pv): _sv for _pv, _sv in _m.items()}\n    _ren.update({_pv: 'X' + _pv for _pv in _m})\n")
+                f.write("import re as _re\ndef _rn(s):\n    return _re.sub(r'(?<![A-Za-z0-9_])(' + '|'.join(sorted(map(_re.escape, _ren), key=len, reverse=True)) + r')(?![A-Za-z0-9_])', lambda m: _ren[m.group(1)], s)\n")
+                f.write("key_patterns = {sel: {_rn(a): _rn(b) for a, b in repl.items()} for sel, repl in key_patterns.items()}\n")
+                f.write("path_templates = {k: _rn(v) for k, v in path_templates.items()}\npath_defaults = {k: _rn(v) for k, v in path_defaults.items()}\n")
             f.write("other_root_path = Path(__file__).parent / 'data' / 'testing' / 'SPIL_PROJECTS' / %r / 'PROJECTS'\n" % folder)
             f.write("path_templates = path_templates.copy()\n")
             f.write("path_templates = {k: v.replace(project_root_path.as_posix(), other_root_path.as_posix()) for k, v in path_templates.items()}\n")
     other_fs('spil_fs_server_conf', 'SERVER')
     if b['third_path']:
-        other_fs('spil_fs_backup_conf', 'BACKUP')
+        other_fs('spil_fs_backup_conf', 'BACKUP', remap=b['third_mapping'])
     with open(os.path.join(out, 'spil_data_conf.py'), 'w') as f:
         f.write("from pathlib import Path\n")
         f.write("path_configs = {'local': 'spil_fs_conf', 'server': 'spil_fs_server_conf'%s}\n" % (", 'backup': 'spil_fs_backup_conf'" if b['third_path'] else ''))
